@@ -67,4 +67,105 @@ theorem errPass_refines {s a} (h : R s a) (e : Err) : R (s.errPass e) (a.errPass
     have := hbufV x y hxy
     omega
 
+/-- everything in the decode branch after the `decodeRune:` loop -/
+def decodeTail (w : Nat) (a : LSt) : LSt :=
+  let bytes := a.rest.take w
+  let a := a.litPush bytes
+  let a := a.consumeN w
+  let a := { a with behind := some bytes.reverse }
+  let a := if a.r == runeError && w == 1 then
+      let (o, l, c) := a.nextPos
+      a.errPass (.utf8 o l c)
+    else a
+  { a with w }
+
+theorem runeDecode_eq (a : LSt) :
+    LSt.runeDecode a = decodeTail (decodeRune a.rest).2 (decodeSpec a) := by
+  unfold LSt.runeDecode decodeTail decodeSpec needMore
+  rcases hd : decodeRune a.rest with ⟨r, w⟩
+  simp only
+
+@[simp] theorem st_litPush_front (s : St) (bs : List Byte) : (s.litPush bs).front = s.front := by
+  unfold St.litPush; split <;> rfl
+@[simp] theorem st_litPush_back (s : St) (bs : List Byte) : (s.litPush bs).back = s.back := by
+  unfold St.litPush; split <;> rfl
+@[simp] theorem st_litPush_bsp (s : St) (bs : List Byte) : (s.litPush bs).bsp = s.bsp := by
+  unfold St.litPush; split <;> rfl
+@[simp] theorem litPush_err (a : LSt) (bs : List Byte) : (a.litPush bs).err = a.err := by
+  unfold LSt.litPush; split <;> rfl
+@[simp] theorem litPush_behind (a : LSt) (bs : List Byte) : (a.litPush bs).behind = a.behind := by
+  unfold LSt.litPush; split <;> rfl
+@[simp] theorem litPush_rest (a : LSt) (bs : List Byte) : (a.litPush bs).rest = a.rest := by
+  unfold LSt.litPush; split <;> rfl
+
+@[simp] theorem decodeSpec_err (a : LSt) : (decodeSpec a).err = a.err := by
+  unfold decodeSpec; split <;> simp
+@[simp] theorem decodeSpec_behind (a : LSt) : (decodeSpec a).behind = a.behind := by
+  unfold decodeSpec; split <;> simp
+@[simp] theorem decodeSpec_rest (a : LSt) : (decodeSpec a).rest = a.rest := by
+  unfold decodeSpec; split <;> simp
+
+theorem nextPos_eq {s a} (h : R s a) (hal : a.err = none) : s.nextPos = a.nextPos := by
+  unfold St.nextPos LSt.nextPos
+  rw [(h.alive hal).2, h.f_w, h.f_line, h.f_col]
+
+def decodeFin (w : Nat) (a : LSt) : LSt :=
+  let a := if a.r == runeError && w == 1 then
+      let (o, l, c) := a.nextPos
+      a.errPass (.utf8 o l c)
+    else a
+  { a with w }
+
+def stFin (w : Nat) (s : St) : St :=
+  let s := if s.r == runeError && w == 1 then
+      let (o, l, c) := s.nextPos
+      s.errPass (.utf8 o l c)
+    else s
+  { s with w }
+
+theorem fin_refines {s a} (w : Nat) (h : R s a) (hal : a.err = none) : R (stFin w s) (decodeFin w a) := by
+  unfold stFin decodeFin
+  have hr := h.f_r
+  have hp := nextPos_eq h hal
+  simp only [hr, hp]
+  split
+  · exact (errPass_refines h _).setW w
+  · exact h.setW w
+
+theorem runeDecode_refines {s a b f} (h : R s a) (hb : a.behind = none) (hf : s.front = b :: f) :
+    ∃ s', St.runeDecode s = .ok s' ∧ R s' (LSt.runeDecode a) := by
+  obtain ⟨hal, hrest⟩ := h.head hf
+  have hr := h.r_ne_of_front hf
+  obtain ⟨s1, h1, hR1, hw⟩ := decodeLoop_refines 4 h hal hb (by simp [hf]) hr (by simp [hf]) (by omega)
+  have hw1 : 1 ≤ (decodeRune a.rest).2 := (decode_width a.rest (by simp [hrest])).1
+  rw [runeDecode_eq]
+  unfold St.runeDecode
+  simp only [h1, bind_ok]
+  generalize (decodeRune a.rest).2 = w at hw hw1 ⊢
+  have hal1 : (decodeSpec a).err = none := by simpa using hal
+  have hb1 : (decodeSpec a).behind = none := by simpa using hb
+  generalize decodeSpec a = a1 at hR1 hal1 hb1 ⊢
+  have hrest1 := (hR1.alive hal1).1
+  have hcur1 : s1.bsp = s1.back.length := by
+    rcases hR1.cursor with hc | ⟨hc, _⟩
+    · exact hc
+    · rw [hc] at hw; simp at hw; omega
+  have htake : a1.rest.take w = s1.front.take w := by
+    rw [hrest1, List.take_append_of_le_length hw]
+  have hlen : (s1.front.take w).length = w := by simp [List.length_take]; omega
+  have hRp := hR1.litPush (s1.front.take w)
+  have hsplit : (s1.litPush (s1.front.take w)).front = s1.front.take w ++ s1.front.drop w := by simp
+  obtain ⟨hRa, hcura, hala, hback, hbeh⟩ :=
+    advanceN_refines (s1.front.take w) hRp (by simpa using hb1) hsplit (by simpa using hal1) (by simpa using hcur1)
+  rw [hlen] at hRa hcura hala hback hbeh
+  have hRb := hRa.setBehind hcura (s1.front.take w).reverse (by rw [hback]; exact List.prefix_append _ _)
+  refine ⟨stFin w (St.advanceN w (s1.litPush (s1.front.take w))), rfl, ?_⟩
+  have := fin_refines w hRb (by simpa using hala)
+  have e : decodeTail w a1 = decodeFin w
+      { LSt.consumeN w (a1.litPush (s1.front.take w)) with behind := some (s1.front.take w).reverse } := by
+    unfold decodeTail decodeFin
+    simp only [htake]
+  rw [e]
+  exact this
+
 end ShVerif.C07
